@@ -39,7 +39,8 @@ class Diagram:
     """A concrete family of diagrams: component names, one declaration form per component, line-order style,
     noise; the drawn relation and the per-end reference form are supplied by `sel`."""
 
-    def __init__(self, names, decl, order: int, noise: bool, style: int, eol: str = "\n"):
+    def __init__(self, names, decl, order: int, noise: bool, style: int, eol: str = "\n", aliases=None):
+        self.aliases = list(aliases) if aliases else list(ALIASES)
         self.eol = eol  # line terminator of the file on disk ("\n" or "\r\n"); the parser reads in text mode
         self.names = list(names)
         self.decl = list(decl)  # index into DECL_FORMS per component
@@ -66,7 +67,7 @@ class Diagram:
 
     def ref(self, i, by_alias: bool, bare: bool) -> str:
         if by_alias:
-            return ALIASES[i]
+            return self.aliases[i]
         # an undeclared or bracket-declared component is referenced in brackets; bare only when allowed
         return self.names[i] if bare else f"[{self.names[i]}]"
 
@@ -76,7 +77,7 @@ class Diagram:
         for i, nm in enumerate(self.names):
             f = DECL_FORMS[self.decl[i]]
             if f is not None:
-                decl_lines.append(f.format(n=nm, a=ALIASES[i]))
+                decl_lines.append(f.format(n=nm, a=self.aliases[i]))
         arrow_lines = []
         drawn = set()
         idx = self.style
@@ -106,14 +107,14 @@ class Diagram:
         return "\n".join(lines) + "\n", comps, drawn
 
     def as_json(self):
-        return {"names": self.names, "decl": self.decl, "order": self.order, "noise": self.noise, "style": self.style, "eol": self.eol}
+        return {"names": self.names, "decl": self.decl, "order": self.order, "noise": self.noise, "style": self.style, "eol": self.eol, "aliases": self.aliases}
 
     @staticmethod
     def from_json(d):
-        return Diagram(d["names"], d["decl"], d["order"], d["noise"], d["style"], d.get("eol", "\n"))
+        return Diagram(d["names"], d["decl"], d["order"], d["noise"], d["style"], d.get("eol", "\n"), d.get("aliases"))
 
     def label(self) -> str:
-        return f"names={self.names} decl={[DECL_FORMS[d] for d in self.decl]} order={self.order} noise={self.noise} style={self.style} eol={self.eol!r}"
+        return f"names={self.names} decl={[DECL_FORMS[d] for d in self.decl]} order={self.order} noise={self.noise} style={self.style} eol={self.eol!r}" + (f" aliases={self.aliases}" if self.aliases != ALIASES else "")
 
 
 _SCRATCH = None
@@ -212,6 +213,13 @@ def diagrams(tier: str) -> list[Diagram]:
     for ns in NAME_SETS.values():
         for d in itertools.product(range(len(DECL_FORMS)), repeat=2):
             out.append(Diagram(ns[:2], d, rnd.randrange(4), rnd.random() < 0.5, rnd.randrange(6), "\r\n" if len(out) % 3 == 0 else "\n"))
+    # aliases that are textually the FIRST SEGMENT of a dotted component name (of their own component, of another
+    # one): an alias stands for its component only as a whole token, never as part of a dotted name
+    pa_names, pa_aliases = ["pkg.core", "pkg.cli", "web.ui"], ["pkg", "web", "k3"]
+    pa = [d for d in itertools.product(range(len(DECL_FORMS)), repeat=3) if any(DECL_FORMS[x] is not None and "{a}" in DECL_FORMS[x] for x in d[:2])]
+    rnd.shuffle(pa)
+    for n, d in enumerate(pa[: (10 if tier == "quick" else 60)]):
+        out.append(Diagram(pa_names, d, n % 4, n % 3 == 0, n % 6, "\n", aliases=pa_aliases))
     # three components: seeded sample of declaration-form triples
     triples = list(itertools.product(range(len(DECL_FORMS)), repeat=3))
     rnd.shuffle(triples)
